@@ -8,6 +8,7 @@ export GOCACHE="${GOCACHE:-$PWD/.gocache}"
 mkdir -p .build lean/EtVerif/Gen
 REPO="${VERIF_REPO:-/repo}"
 (cd tools/gofacts && go build -o ../../.build/gofacts . && ../../.build/gofacts "$REPO" > ../../.build/Facts.lean && (cmp -s ../../.build/Facts.lean ../../lean/EtVerif/Gen/Facts.lean || cp ../../.build/Facts.lean ../../lean/EtVerif/Gen/Facts.lean))
+(cd tools/go2lean && go build -o ../../.build/go2lean . && ../../.build/go2lean "$REPO" > ../../.build/Translated.lean && (cmp -s ../../.build/Translated.lean ../../lean/EtVerif/Gen/Translated.lean || cp ../../.build/Translated.lean ../../lean/EtVerif/Gen/Translated.lean))
 (cd lean && lake build EtVerif etdriver $(ls EtVerif/Props/*.lean | sed 's|/|.|g; s|\.lean$||'))
 (cd harness && go build -tags verif -o ../.build/etharness.warm ./cmd/etharness && rm -f ../.build/etharness.warm)
 if [ -d tools/gofacts ]; then (cd tools/gofacts && go build -o ../../.build/gofacts.warm . && rm -f ../../.build/gofacts.warm); fi
